@@ -49,6 +49,27 @@ def gen_cfgs(ctx, n):
         it = ['f1'] * cfg.accum + ['s']
         cfg.ops = it * 2 + ['k'] + it * rng.randrange(2, 5) + ['R11'] + it * 3
         cfgs.append(cfg)
+    # directed: a batch dropped with reset_batch() while its data is pending (deferred updates, or the middle of an
+    # accumulation window) leaves no trace in the next factor update
+    for hook, accum in ((False, 1), (False, 2), (True, 2), (True, 3)):
+        cfg = kfacsim.Config(rng, world=rng.choice([1, 2]), hook=hook, accum=accum)
+        cfg.hyper_changes = []
+        cfg.cap_mb = 0.0
+        cfg.hyper['factor_update_steps'] = 1
+        it = ['f1'] * accum + ['s']
+        cfg.ops = it + ['f1'] * rng.randrange(1, accum + 1) + ['r'] + it * 3
+        cfgs.append(cfg)
+    # directed: callable and constant hyper-parameters mixed; a constant changed before a checkpoint round trip
+    for _ in range(2):
+        cfg = kfacsim.Config(rng, world=rng.choice([1, 2]))
+        cfg.hyper['factor_decay'] = [Fraction(1, 2), Fraction(3, 4), Fraction(7, 8)]
+        cfg.hyper['damping'] = Fraction(1, 4)
+        cfg.hyper['inv_update_steps'] = 2
+        cfg.hyper_changes = [{'damping': Fraction(1, 64)}]
+        cfg.perturb_ctor = True
+        it = ['f1'] * cfg.accum + ['s']
+        cfg.ops = it + ['h:0'] + it + ['v1', 'l11'] + it * 3
+        cfgs.append(cfg)
     while len(cfgs) < n:
         cfg = kfacsim.Config(rng, world=rng.choice([1, 1, 2, 3, 4]))
         cfg.hyper['factor_update_steps'] = rng.choice([1, 2, 3, 3, 5, [1, 2, 2, 1, 3, 1, 1, 2], [2, 2, 3, 3, 1, 1]])
@@ -99,7 +120,7 @@ def gen_cfgs(ctx, n):
 
 def run(ctx):
     kfacsim.run_batch(ctx, gen_cfgs(ctx, ctx.budget(70, 700)), STREAMS,
-                      oracles=(kfacsim.oracle_reference, oracle_hpcalls), whole_only_oracles=False)
+                      oracles=(kfacsim.oracle_reference, oracle_hpcalls, kfacsim.oracle_state_keys), whole_only_oracles=False)
 
 
 def search(ctx):
